@@ -74,7 +74,7 @@ func execM(cd *common.Codec, sc *Scenario, data []byte, x *simkit.Ctx, allocByte
 	t.NoRecord = true
 	t.Clock = &x.Clock
 	r := &result{}
-	buf := append([]byte{}, data...)
+	buf := simkit.Exact(data)
 	str := string(data)
 	a0 := allocBytes()
 	r.panic = simkit.Guard(func() {
@@ -158,7 +158,7 @@ func (Engine) Run(c *simkit.Choices, x *simkit.Ctx) *simkit.Violation {
 		case 1: // splice: head of the document followed by the tail of itself at another offset
 			if len(doc.Bytes) > 1 {
 				a, b := c.N(len(doc.Bytes)), c.N(len(doc.Bytes))
-				data = append(append([]byte{}, doc.Bytes[:a]...), doc.Bytes[b:]...)
+				data = append(simkit.Exact(doc.Bytes[:a]), doc.Bytes[b:]...)
 				faults = []common.Fault{{Kind: "splice", Pos: a, Arg: b}}
 				st.Fault("corrupt-splice")
 			}
